@@ -259,11 +259,22 @@ func (d *driver) pickHash(order []string, n int, rnd *rand.Rand, wantTie bool) (
 
 func (d *driver) replicators(b behaviour, rnd *rand.Rand) {
 	n := b.N10 - 10
+	// the two nodes: each its own chain object and its own sharder pool (own node objects)
+	type nodeSide struct {
+		c    *chain.Chain
+		pool *node.Pool
+		name map[string]string
+	}
+	var sides []nodeSide
+	for _, order := range [][]string{b.O1, b.O2} {
+		c, pool, name := d.chainWith(order, n)
+		sides = append(sides, nodeSide{c, pool, name})
+	}
 	for k := 0; k < 4; k++ { // four block hashes per behaviour, every second one with a tie at the cut
 		hash, tie := d.pickHash(b.O1, n, rnd, k%2 == 1)
 		res := map[int]rec.M{}
-		for side, order := range [][]string{b.O1, b.O2} {
-			c, pool, name := d.chainWith(order, n)
+		for side := range sides {
+			c, pool, name := sides[side].c, sides[side].pool, sides[side].name
 			blk := block.Provider().(*block.Block)
 			blk.Round = 5
 			blk.Hash = hash
